@@ -631,6 +631,9 @@ class Engine:
             return self.box(a, st) == self.box(b, st)
         if isinstance(a, VClass) and isinstance(b, VClass):
             return z3.BoolVal(a.name == b.name)
+        # a bool singleton (True / False / None) is never identical to a value of another primitive type
+        if (isinstance(a, VBool) and isinstance(b, (VInt, VStr, VTd, VTuple))) or (isinstance(b, VBool) and isinstance(a, (VInt, VStr, VTd, VTuple))):
+            return z3.BoolVal(False)
         if isinstance(a, VRef) or isinstance(b, VRef):
             o, p = (a, b) if isinstance(a, VRef) else (b, a)
             if isinstance(p, (VInt, VStr, VTd, VTuple)):
@@ -1058,6 +1061,9 @@ class Engine:
                 if -len(items) <= i < len(items):
                     return [(st, items[i])]
                 return [(st, VExc("IndexError"))]
+            hook = self.contracts.get("op:getitem")
+            if hook:
+                return hook(self, st, c, k)
             raise Undecided("symbolic index")
         hook = self.contracts.get("op:getitem")
         if hook:
